@@ -130,6 +130,32 @@ theorem At.unskip {r : List Char} {ps : List Piece} (h : At r .other (.punct '}'
 theorem fuel_succ {n fuel : Nat} (h : 1 + n ≤ fuel) : ∃ f, fuel = f + 1 ∧ n ≤ f :=
   ⟨fuel - 1, by omega, by omega⟩
 
+theorem needElems_pos : ∀ vs : TVals, 1 ≤ needElems vs
+  | .nil => by simp [needElems]
+  | .cons v vs => by simp only [needElems]; omega
+  | .skip vs => by simp only [needElems]; exact needElems_pos vs
+
+/-- Elements that are all unreadable: only comments in the multi-line text, nothing written. -/
+theorem toks_elemsML_unwritten (o : Opts) : ∀ (vs : TVals) (j : Nat), vs.written = 0 →
+    toks (writeElemsML o j vs) = []
+  | .nil, j, _ => by rw [writeElemsML]; rfl
+  | .cons v vs, j, h => by simp [TVals.written] at h
+  | .skip vs, j, h => by
+    have ih := toks_elemsML_unwritten o vs (j + 1) h
+    rw [writeElemsML]
+    by_cases hc : o.comments = true <;> simp [hc, toks, ih]
+
+theorem writesElems_unwritten (path : List Char) : ∀ (vs : TVals) (j : Nat), vs.written = 0 →
+    writesElems path j vs = []
+  | .nil, j, _ => by rw [writesElems]
+  | .cons v vs, j, h => by simp [TVals.written] at h
+  | .skip vs, j, h => by rw [writesElems]; exact writesElems_unwritten path vs (j + 1) h
+
+theorem smallArrays_unwritten : ∀ (vs : TVals), vs.written = 0 → vs.SmallArrays
+  | .nil, _ => trivial
+  | .cons v vs, h => by simp [TVals.written] at h
+  | .skip vs, h => smallArrays_unwritten vs h
+
 /-! ## The reader on the writer's pieces -/
 
 mutual
@@ -155,11 +181,11 @@ theorem read_val : ∀ (v : TVal) (s : RShape) (o : Opts) (path r : List Char) (
       obtain ⟨f, rfl, hf'⟩ := fuel_succ (n := needElems vs) (by simpa [needVal] using hf)
       rw [writeVal] at h ⊢
       by_cases hml : o.multiline = true
-      · have hsm : vs.length ≤ 1 ∧ vs.SmallArrays := hsa hml
+      · have hsm : vs.written ≤ 1 ∧ vs.SmallArrays := hsa hml
         simp only [hml, if_true, List.cons_append, List.append_assoc, List.nil_append] at h ⊢
         obtain ⟨hread, _, h1⟩ := h.punct
         have h2 := At.skip _ (by split <;> first | rfl | exact toks_asciiLines _ _ _) h1
-        obtain ⟨r', hr', hat⟩ := read_elemsML vs elem o path _ f 0 count _ _ R ho hml hvs hall
+        obtain ⟨r', hr', hat⟩ := read_elemsML vs elem o path _ f 0 0 count _ _ R ho hml hvs hall
           (by omega) hcnt hsm.1 hsm.2 hf' h2
         refine ⟨r', ?_, ?_⟩
         · simp only [readVal, hread, writesVal]; exact hr'
@@ -168,8 +194,8 @@ theorem read_val : ∀ (v : TVal) (s : RShape) (o : Opts) (path r : List Char) (
         simp only [hsl, Bool.false_eq_true, if_false, List.cons_append, List.append_assoc,
           List.nil_append] at h ⊢
         obtain ⟨hread, _, h1⟩ := h.punct
-        obtain ⟨r', hr', hat⟩ := read_elemsSL vs elem o path _ f 0 count _ _ R ho hsl hvs hall
-          (by omega) hcnt hf' h1
+        obtain ⟨r', hr', hat⟩ := read_elemsSL vs elem o path _ f 0 false 0 count _ _ R ho hsl hvs hall
+          (by omega) hcnt (fun _ => rfl) hf' h1
         refine ⟨r', ?_, ?_⟩
         · simp only [readVal, hread, writesVal]; exact hr'
         · simpa [lastKind, lastKind_append, Piece.kind] using hat
@@ -202,17 +228,35 @@ theorem read_val : ∀ (v : TVal) (s : RShape) (o : Opts) (path r : List Char) (
     | arr _ _ => exact absurd hm (by simp [Matches])
 
 theorem read_elemsSL : ∀ (vs : TVals) (elem : RShape) (o : Opts) (path r : List Char)
-    (fuel i count : Nat) (k : Kind) (sp : List Char) (R : List Piece), o.Rereadable →
-    o.multiline = false → vs.WF → MatchesAll elem vs → i + vs.length = count → count < 2 ^ 64 →
-    needElems vs ≤ fuel → At r k (writeElemsSL o i vs ++ (.space sp :: .punct '}' :: R)) →
-    ∃ r', readElems fuel count elem path i r = .ok (writesElems path i vs) r' ∧ At r' .other R
-  | .nil, elem, o, path, r, fuel, i, count, k, sp, R, ho, hsl, hvs, hall, hcount, hc64, hf, h => by
+    (fuel i : Nat) (skipped : Bool) (idx count : Nat) (k : Kind) (sp : List Char) (R : List Piece),
+    o.Rereadable → o.multiline = false → vs.WF → MatchesAll elem vs → i + vs.length = count →
+    count < 2 ^ 64 → (skipped = false → idx = i) →
+    needElems vs ≤ fuel → At r k (writeElemsSL o i skipped vs ++ (.space sp :: .punct '}' :: R)) →
+    ∃ r', readElems fuel count elem path idx r = .ok (writesElems path i vs) r' ∧ At r' .other R
+  | .nil, elem, o, path, r, fuel, i, skipped, idx, count, k, sp, R, ho, hsl, hvs, hall, hcount, hc64,
+      hidx, hf, h => by
     obtain ⟨f, rfl, _⟩ := fuel_succ (n := 0) (by simpa [needElems] using hf)
     rw [writeElemsSL] at h
     simp only [List.nil_append] at h
-    obtain ⟨hr, hat⟩ := read_elems_end f count elem path i h.skip_space
+    obtain ⟨hr, hat⟩ := read_elems_end f count elem path idx h.skip_space
     exact ⟨_, by simpa [writesElems] using hr, hat⟩
-  | .cons v vs, elem, o, path, r, fuel, i, count, k, sp, R, ho, hsl, hvs, hall, hcount, hc64, hf, h => by
+  | .skip vs, elem, o, path, r, fuel, i, skipped, idx, count, k, sp, R, ho, hsl, hvs, hall, hcount,
+      hc64, hidx, hf, h => by
+    have hvs' : vs.WF := hvs
+    have hall' : MatchesAll elem vs := hall
+    have hlen : i + (vs.length + 1) = count := hcount
+    have hf' : needElems vs ≤ fuel := hf
+    have hc : o.comments = false := by
+      cases h : o.comments with
+      | false => rfl
+      | true => exact absurd (ho.comments_need_multiline h) (by simp [hsl])
+    rw [writeElemsSL] at h
+    simp only [hc, Bool.false_eq_true, if_false, List.nil_append] at h
+    simp only [writesElems]
+    exact read_elemsSL vs elem o path r fuel (i + 1) true idx count k sp R ho hsl hvs' hall'
+      (by omega) hc64 (fun h => absurd h (by decide)) hf' h
+  | .cons v vs, elem, o, path, r, fuel, i, skipped, idx, count, k, sp, R, ho, hsl, hvs, hall, hcount,
+      hc64, hidx, hf, h => by
     obtain ⟨hv, hvs'⟩ : v.WF ∧ vs.WF := hvs
     obtain ⟨hmv, hall'⟩ : Matches elem v ∧ MatchesAll elem vs := hall
     have hf2 : 1 + (needVal v + needElems vs) ≤ fuel := by simp only [needElems] at hf; omega
@@ -222,23 +266,27 @@ theorem read_elemsSL : ∀ (vs : TVals) (elem : RShape) (o : Opts) (path r : Lis
     simp only [List.cons_append, List.append_assoc] at h
     have h1 := h.skip_space
     have hA : ∃ c rest r2, discardWs false r = c :: rest ∧ c ≠ '}' ∧
-        (if c = '[' then readMarker rest else some (i, c :: rest)) = some (i, r2) ∧
+        (if c = '[' then readMarker rest else some (idx, c :: rest)) = some (i, r2) ∧
         At r2 .other (writeVal o.plusOne v ++ ((if vs.isNil = true then [] else [Piece.punct ',']) ++
-          (writeElemsSL o (i + 1) vs ++ (.space sp :: .punct '}' :: R)))) := by
-      by_cases hi8 : i % 8 = 0
+          (writeElemsSL o (i + 1) false vs ++ (.space sp :: .punct '}' :: R)))) := by
+      by_cases hi8 : i % 8 = 0 ∨ skipped = true
       · simp only [hi8, if_true] at h1
         obtain ⟨rest, r3, hpeek, hmk, hat⟩ := read_marker o i _ (by omega) h1
         exact ⟨'[', rest, r3, hpeek, by decide, by simpa using hmk, hat⟩
       · simp only [hi8, if_false, List.nil_append] at h1
+        have hsk : skipped = false := by
+          cases skipped with
+          | false => rfl
+          | true => exact absurd (Or.inr rfl) hi8
         obtain ⟨c, rest, hpeek, hc1, hc2⟩ := peek_val o.plusOne v _ h1
-        refine ⟨c, rest, c :: rest, hpeek, hc1, by simp [hc2], ?_⟩
+        refine ⟨c, rest, c :: rest, hpeek, hc1, by simp [hc2, hidx hsk], ?_⟩
         have := h1.of_discard
         rwa [hpeek] at this
     obtain ⟨c, rest, r2, hpeek, hc, hmk, h2⟩ := hA
     obtain ⟨r', hr', h3⟩ := read_val v elem o.plusOne (pathIdx path i) r2 f .other _ ho.plusOne hv hmv
       (fun h => absurd h (by simp [Opts.plusOne, hsl])) (by omega) h2
     have hB : ∃ r3 k' sp', afterElem r' = some r3 ∧
-        At r3 k' (writeElemsSL o (i + 1) vs ++ (.space sp' :: .punct '}' :: R)) := by
+        At r3 k' (writeElemsSL o (i + 1) false vs ++ (.space sp' :: .punct '}' :: R)) := by
       cases vs with
       | nil =>
         simp only [TVals.isNil, if_true, List.nil_append, writeElemsSL] at h3 ⊢
@@ -248,50 +296,74 @@ theorem read_elemsSL : ∀ (vs : TVals) (elem : RShape) (o : Opts) (path r : Lis
         simp only [TVals.isNil, Bool.false_eq_true, if_false, List.cons_append, List.nil_append] at h3
         obtain ⟨ha, hat⟩ := afterElem_comma h3
         exact ⟨_, .other, sp, ha, hat⟩
+      | skip vs2 =>
+        simp only [TVals.isNil, Bool.false_eq_true, if_false, List.cons_append, List.nil_append] at h3
+        obtain ⟨ha, hat⟩ := afterElem_comma h3
+        exact ⟨_, .other, sp, ha, hat⟩
     obtain ⟨r3, k', sp', ha, h4⟩ := hB
-    obtain ⟨r4, hr4, h5⟩ := read_elemsSL vs elem o path r3 f (i + 1) count k' sp' R ho hsl hvs' hall'
-      (by omega) hc64 (by omega) h4
+    obtain ⟨r4, hr4, h5⟩ := read_elemsSL vs elem o path r3 f (i + 1) false (i + 1) count k' sp' R ho hsl
+      hvs' hall' (by omega) hc64 (fun _ => rfl) (by omega) h4
     refine ⟨r4, ?_, h5⟩
     have hlt : ¬ i ≥ count := by omega
     simp only [pathIdx] at hr'
     simp only [readElems, hpeek, hc, if_false, hmk, hlt, hr', ha, hr4, writesElems, pathIdx]
 
 theorem read_elemsML : ∀ (vs : TVals) (elem : RShape) (o : Opts) (path r : List Char)
-    (fuel i count : Nat) (k : Kind) (sp : List Char) (R : List Piece), o.Rereadable →
+    (fuel i idx count : Nat) (k : Kind) (sp : List Char) (R : List Piece), o.Rereadable →
     o.multiline = true → vs.WF → MatchesAll elem vs → i + vs.length = count → count < 2 ^ 64 →
-    vs.length ≤ 1 → vs.SmallArrays →
+    vs.written ≤ 1 → vs.SmallArrays →
     needElems vs ≤ fuel → At r k (writeElemsML o i vs ++ (.space sp :: .punct '}' :: R)) →
-    ∃ r', readElems fuel count elem path i r = .ok (writesElems path i vs) r' ∧ At r' .other R
-  | .nil, elem, o, path, r, fuel, i, count, k, sp, R, ho, hml, hvs, hall, hcount, hc64, hl1, hsm, hf, h => by
+    ∃ r', readElems fuel count elem path idx r = .ok (writesElems path i vs) r' ∧ At r' .other R
+  | .nil, elem, o, path, r, fuel, i, idx, count, k, sp, R, ho, hml, hvs, hall, hcount, hc64, hl1, hsm,
+      hf, h => by
     obtain ⟨f, rfl, _⟩ := fuel_succ (n := 0) (by simpa [needElems] using hf)
     rw [writeElemsML] at h
     simp only [List.nil_append] at h
-    obtain ⟨hr, hat⟩ := read_elems_end f count elem path i h.skip_space
+    obtain ⟨hr, hat⟩ := read_elems_end f count elem path idx h.skip_space
     exact ⟨_, by simpa [writesElems] using hr, hat⟩
-  | .cons v vs, elem, o, path, r, fuel, i, count, k, sp, R, ho, hml, hvs, hall, hcount, hc64, hl1, hsm, hf, h => by
-    cases vs with
-    | cons _ _ => simp only [TVals.length] at hl1; omega
-    | nil =>
-      obtain ⟨hv, _⟩ : v.WF ∧ TVals.nil.WF := hvs
-      obtain ⟨hmv, _⟩ : Matches elem v ∧ MatchesAll elem .nil := hall
-      obtain ⟨hsv, _⟩ : v.SmallArrays ∧ TVals.nil.SmallArrays := hsm
-      have hf2 : 1 + (1 + needVal v) ≤ fuel := by simp only [needElems] at hf; omega
-      obtain ⟨f, rfl, hf'⟩ := fuel_succ hf2
-      obtain ⟨f', rfl, hf''⟩ := fuel_succ hf'
-      have hlen : i + (0 + 1) = count := hcount
-      rw [writeElemsML] at h
-      simp only [writeElemsML, List.cons_append, List.append_assoc, List.nil_append] at h
-      obtain ⟨rest, r2, hpeek, hmk, h2⟩ := read_marker o i _ (by omega) h.skip_space
-      obtain ⟨r', hr', h3⟩ := read_val v elem o.plusOne (pathIdx path i) r2 (f' + 1) .other _
-        ho.plusOne hv hmv (fun _ => hsv) (by omega) h2
-      obtain ⟨r3, ha, h4⟩ := afterElem_close h3.skip_space
-      obtain ⟨hr4, h5⟩ := read_elems_end f' count elem path (i + 1) h4
-      refine ⟨_, ?_, h5⟩
-      have hlt : ¬ i ≥ count := by omega
-      simp only [pathIdx] at hr'
-      rw [readElems]
-      simp only [hpeek, hmk, hlt, hr', ha, hr4, writesElems, pathIdx, if_true, if_false]
-      simp
+  | .skip vs, elem, o, path, r, fuel, i, idx, count, k, sp, R, ho, hml, hvs, hall, hcount, hc64, hl1,
+      hsm, hf, h => by
+    have hvs' : vs.WF := hvs
+    have hall' : MatchesAll elem vs := hall
+    have hlen : i + (vs.length + 1) = count := hcount
+    have hl1' : vs.written ≤ 1 := hl1
+    have hsm' : vs.SmallArrays := hsm
+    have hf' : needElems vs ≤ fuel := hf
+    rw [writeElemsML] at h
+    simp only [writesElems]
+    by_cases hc : o.comments = true
+    · simp only [hc, if_true, List.cons_append, List.nil_append] at h
+      exact read_elemsML vs elem o path r fuel (i + 1) idx count _ sp R ho hml hvs' hall' (by omega)
+        hc64 hl1' hsm' hf' h.skip_space.skip_comment
+    · simp only [hc, if_false, List.nil_append] at h
+      exact read_elemsML vs elem o path r fuel (i + 1) idx count _ sp R ho hml hvs' hall' (by omega)
+        hc64 hl1' hsm' hf' h
+  | .cons v vs, elem, o, path, r, fuel, i, idx, count, k, sp, R, ho, hml, hvs, hall, hcount, hc64, hl1,
+      hsm, hf, h => by
+    obtain ⟨hv, _⟩ : v.WF ∧ vs.WF := hvs
+    obtain ⟨hmv, _⟩ : Matches elem v ∧ MatchesAll elem vs := hall
+    obtain ⟨hsv, _⟩ : v.SmallArrays ∧ vs.SmallArrays := hsm
+    have hw0 : vs.written = 0 := by simp only [TVals.written] at hl1; omega
+    have hpos := needElems_pos vs
+    have hf2 : 1 + (needVal v + needElems vs) ≤ fuel := by simp only [needElems] at hf; omega
+    obtain ⟨f, rfl, hf'⟩ := fuel_succ hf2
+    obtain ⟨f', rfl, hf''⟩ := fuel_succ (by omega : 1 + needVal v ≤ f)
+    have hlen : i + (vs.length + 1) = count := hcount
+    rw [writeElemsML] at h
+    simp only [List.cons_append, List.append_assoc] at h
+    obtain ⟨rest, r2, hpeek, hmk, h2⟩ := read_marker o i _ (by omega) h.skip_space
+    obtain ⟨r', hr', h3⟩ := read_val v elem o.plusOne (pathIdx path i) r2 (f' + 1) .other _
+      ho.plusOne hv hmv (fun _ => hsv) (by omega) h2
+    have h3' := At.skip _ (toks_elemsML_unwritten o vs (i + 1) hw0) h3
+    obtain ⟨r3, ha, h4⟩ := afterElem_close h3'.skip_space
+    obtain ⟨hr4, h5⟩ := read_elems_end f' count elem path (i + 1) h4
+    refine ⟨_, ?_, h5⟩
+    have hlt : ¬ i ≥ count := by omega
+    simp only [pathIdx] at hr'
+    rw [readElems]
+    simp only [hpeek, hmk, hlt, hr', ha, hr4, writesElems, writesElems_unwritten path vs (i + 1) hw0,
+      pathIdx, if_true, if_false]
+    simp
 
 theorem read_fields : ∀ (fs : TFields) (rfs : RFields) (o : Opts) (wrote : Bool) (path r : List Char)
     (fuel : Nat) (k : Kind) (sp : List Char) (R : List Piece), o.Rereadable → fs.WF →
@@ -356,6 +428,20 @@ theorem read_fields : ∀ (fs : TFields) (rfs : RFields) (o : Opts) (wrote : Boo
     simp only [writesFields]
     by_cases hc : o.comments = true
     · simp only [hc, if_true, List.cons_append, List.append_assoc, List.nil_append] at h
+      exact read_fields fs rfs o wrote path r fuel _ sp R ho hfs' hm' hsf hf'
+        h.skip_space.skip_comment.skip_space
+    · simp only [hc, if_false, List.nil_append] at h
+      exact read_fields fs rfs o wrote path r fuel _ sp R ho hfs' hm' hsf hf' h
+  | .skip name fs, rfs, o, wrote, path, r, fuel, k, sp, R, ho, hfs, hm, hsa, hf, h => by
+    obtain ⟨_, hfs'⟩ : ValidWord name ∧ fs.WF := hfs
+    have hm' : MatchesFields rfs fs := hm
+    have hsf : o.multiline = true → fs.SmallArrays := fun h => hsa h
+    have hf' : needFields fs ≤ fuel := hf
+    rw [writeFields] at h
+    simp only [writesFields]
+    by_cases hc : o.comments = true
+    · have hml := ho.comments_need_multiline hc
+      simp only [hc, hml, if_true, List.cons_append, List.append_assoc, List.nil_append] at h
       exact read_fields fs rfs o wrote path r fuel _ sp R ho hfs' hm' hsf hf'
         h.skip_space.skip_comment.skip_space
     · simp only [hc, if_false, List.nil_append] at h
